@@ -1004,23 +1004,9 @@ Section Main.
     Proof.
       unfold wf_elem. intros H. apply andb_true_iff in H as [_ H].
       unfold var_type in H. destruct (v_types var) as [|t [|? ?]]; try discriminate.
-      assert (Hs : simple_type t && match v_clazz var with None => true | Some _ => false end
-                   && match v_factory var, v_tokens_factory var with
-                      | None, None => match v_default var with DNone | DValue (VP _) => true | _ => false end
-                      | Some f, _ => factory_default f (v_default var)
-                      | None, Some f => factory_default f (v_default var)
-                      end = true ->
-                   match v_factory var, v_tokens_factory var with
-                   | Some f, _ => factory_default f (v_default var) = true
-                   | None, Some tf => factory_default tf (v_default var) = true
-                   | None, None => True
-                   end).
-      { intros Hx. apply andb_true_iff in Hx as [_ Hx].
-        destruct (v_factory var), (v_tokens_factory var); try exact Hx; exact I. }
-      destruct t as [| | | | | | | | | | | | |e|k]; try (apply Hs; exact H).
-      all: apply andb_true_iff in H as [H H3]; apply andb_true_iff in H as [_ H2];
-        destruct (v_tokens_factory var); [discriminate H2|];
-        destruct (v_factory var); [exact H3|exact I].
+      clear - H.
+      destruct t; destruct (v_factory var) as [f|]; destruct (v_tokens_factory var) as [tf|];
+        try exact I; rewrite ?andb_true_iff in H; try (intuition discriminate); intuition.
     Qed.
 
     Lemma factory_default_call f d tp : factory_default f d = true -> tp = is_tuple f -> default_call d = VList tp [].
@@ -1193,7 +1179,7 @@ Section Main.
       = ROk (Some (NElement (mk_enode mk attrs ns pos false None None [] []))).
     Proof.
       intros Hv Hcl Hty Hmk Hnil Hxt Hxn. pose proof Hv as [Hw _].
-      destruct (wf_elem_inv var Hw) as [_ [Hc _]]. destruct (var_common_inv var Hc) as [_ [_ [_ [Hn _]]]].
+      pose proof (wf_elem_nonil_class var k Hw Hty) as Hn.
       unfold build_node, v_is_clazz_union. rewrite Hcl, Hty. change (1 <? N.of_nat (length [TClass k])) with false. cbn iota.
       rewrite Hxt. unfold xsi_nil_of. rewrite Hxn. cbn [truthy_str rbind].
       unfold build_element_node, fetch, get_meta. rewrite Hmk. cbn [rbind truthy_str].
@@ -1211,7 +1197,7 @@ Section Main.
       = ROk (Some (NElement (mk_enode mk attrs ns pos false (Some t) None [] []))).
     Proof.
       intros Hv Hcl Hty Hmkd Hmk Hmc' Hnil Hne Htg Hsl Hfq Hsub Hxt Hxn. pose proof Hv as [Hw _].
-      destruct (wf_elem_inv var Hw) as [_ [Hc _]]. destruct (var_common_inv var Hc) as [_ [_ [_ [Hn _]]]].
+      pose proof (wf_elem_nonil_class var kd Hw Hty) as Hn.
       unfold build_node, v_is_clazz_union. rewrite Hcl, Hty. change (1 <? N.of_nat (length [TClass kd])) with false. cbn iota.
       rewrite Hxt. unfold xsi_nil_of. rewrite Hxn. cbn [truthy_str rbind].
       unfold build_element_node, fetch, get_meta. rewrite Hmkd. cbn [rbind].
@@ -1259,7 +1245,6 @@ Section Main.
       rewrite (run_step cfg c u replay root _ _ _ _
                  (start_child var [] ns asg wr wo Q objs W _ Hv Hasg Hag (build_node_prim var ns (length objs) asg wr Hv Hcl))).
       destruct (wf_class_inv m Hwc) as [F1 F2 F3 F4 F5 F6 F7 F8 F9 F10 F11 F12 F13].
-      destruct (wf_elem_inv var Hw) as [_ [Hc _]]. destruct (var_common_inv var Hc) as [_ [_ [_ [Hn _]]]].
       apply run_step. cbn [Parser.step pend st_queue st_objects st_warn].
       unfold primitive_bind.
       assert (Hpv : parse_var c (fail_conv_warnings cfg) m var
@@ -1268,15 +1253,16 @@ Section Main.
       { destruct (y_text (v_format var) y) as [|ch s] eqn:Ey.
         - destruct (Hemp eq_refl) as [p [-> Hep]]. unfold parse_var. cbn [truthy_str]. rewrite Ht.
           cbn [parse_value]. unfold empty_ok in Hep. cbn [y_text] in Ey. rewrite Ey in Hep. cbn [nonempty_s orb] in Hep.
-          apply andb_true_iff in Hep as [Hd _].
+          apply andb_true_iff in Hep as [Hd _]. apply andb_true_iff in Hd as [_ Hd].
           cbn [tokens_agree] in Htk. rewrite Htk. cbn [is_some].
           destruct (v_default var); try discriminate Hd; reflexivity.
         - rewrite <- Ey. apply (parse_var_text m var t y ns Ht Hs Htk). }
-      rewrite Hpv. cbn [rbind]. rewrite F6, Hn.
+      rewrite Hpv. cbn [rbind]. rewrite F6.
       unfold finish_end. cbn [rbind fst snd st_warn]. rewrite app_nil_r.
       destruct (y_text (v_format var) y) as [|ch s] eqn:Ey.
       - destruct (Hemp eq_refl) as [p [-> Hep]]. unfold empty_ok in Hep. cbn [y_text] in Ey. rewrite Ey in Hep.
-        cbn [nonempty_s orb] in Hep. apply andb_true_iff in Hep as [_ Hp]. rewrite Ht.
+        cbn [nonempty_s orb] in Hep. apply andb_true_iff in Hep as [Hep Hp]. apply andb_true_iff in Hep as [Hnl _].
+        apply negb_true_iff in Hnl. rewrite Hnl, Ht.
         destruct p as [s0| | | | |b0| | |]; try discriminate Hp; [destruct s0; [|discriminate Hp]|destruct b0; [|discriminate Hp]].
         + inversion Hs as [p' Hlf|]; subst. destruct (leaf_ok_inv c u ok t _ _ Hlf) as [_ [Hty _]].
           cbn [prim_ptype] in Hty. subst t. reflexivity.
@@ -2172,7 +2158,7 @@ Section Main.
       assert (Hpairs : pairs cl fs m = emit1 fs tv).
       { rewrite (pairs_plain cl fs m Hwc Hnames), Hevars; [cbn [flat_map]; apply app_nil_r|].
         intros var Hv. rewrite Hevars in Hv. destruct Hv as [<-|[]].
-        apply (wf_text_noseq tv Hwt). }
+        split; [apply (wf_text_noseq tv Hwt)|left; apply (wf_text_nonil tv Hwt)]. }
       assert (Hkf : flat_map (fun vv => e_field (eobj n) (fst vv) (snd vv)) (pairs cl fs m) = e_field (eobj n) tv (field_of fs tv)).
       { rewrite Hpairs. unfold emit1. destruct (field_of fs tv); cbn [flat_map fst snd]; rewrite ?app_nil_r; reflexivity. }
       rewrite Hkf in Hk.
